@@ -299,7 +299,10 @@ class Gen:
                         C(i, "CMD SETFORMAT %d\0" % r.choice([0, 1]))
                 elif profile == "radio":
                     v = r.choice(["FAKE_CI", "FAKE_RSSI", "FAKE_TOA", "SETTA", "SETPOWER", "SETFORMAT"])
-                    if v == "FAKE_CI":
+                    if v.startswith("FAKE_") and r.random() < 0.3:
+                        # the relative form: `FAKE_x <+-DELTA>` moves the base, the randomisation threshold stays
+                        C(i, "CMD %s %d\0" % (v, r.choice([1, -1, 2, -3, 5, -7, 10])))
+                    elif v == "FAKE_CI":
                         C(i, "CMD FAKE_CI %d %d\0" % (r.choice([90, -20, 100, 1275]), r.choice([0, 1, 2, 5])))
                     elif v == "FAKE_RSSI":
                         C(i, "CMD FAKE_RSSI %d %d\0" % (r.choice([-60, -75, -85, -49, -119]), r.choice([0, 2, 20, 25, -1])))
